@@ -1042,8 +1042,11 @@ class Scn(object):
                 if r.msg.type in (2, 3) and r.msg.known().get(7) == DRIVER.encode() and \
                         not (i == c and r.msg.known().get(5) == serial):
                     self.violation("reply-multiplicity", "client %d holds an extra driver reply: %r" % (i, r), op)
-        errs = [r for r in inbox[c] if r.msg.type == 3 and r.msg.known().get(5) == serial]
-        others = [r for r in inbox[c] if r.msg.type == 2 and r.msg.known().get(5) == serial]
+        # answers to this probe: not the sender's own eavesdropped copy of what it just sent (an eavesdropper matches its
+        # own outgoing messages; the REPLY_SERIAL a reply carries may coincide with the serial the reply itself got)
+        mine = cl.unique
+        errs = [r for r in inbox[c] if r.msg.type == 3 and r.msg.known().get(5) == serial and r.msg.known().get(7) != mine]
+        others = [r for r in inbox[c] if r.msg.type == 2 and r.msg.known().get(5) == serial and r.msg.known().get(7) != mine]
         denied_errs = [r for r in errs if r.msg.known().get(4) == ACCESS_DENIED and r.msg.known().get(7) == DRIVER.encode()]
         shape = "%s:%s" % (op["type"], "broadcast" if dest is None else dest["kind"])
         self.part.count("probe:" + shape)
